@@ -186,7 +186,11 @@ def analyse(text, parts, res):
             msg = msg + " [" + "; ".join(f'{os.path.basename(s.get("file_name",""))}:{s["line_start"]}' for s in foreign[:2]) + "]"
         rec = {"message": msg, "part": nm, "kind": kd, "line": pline, "labels": sorted(set(labels)),
                "spans": span_txt, "rendered": d.get("rendered", "")[:3000]}
-        if any(k in msg for k in INCONCLUSIVE_MSGS):
+        if d.get("code"):
+            # a rustc diagnostic (E0277 "the trait bound .. is not satisfied", ...): the emitted text does not type-check, which is
+            # a construct outside the rule catalogue - inconclusive, never a failed obligation
+            out["other_errors"].append(rec)
+        elif any(k in msg for k in INCONCLUSIVE_MSGS):
             out.setdefault("rlimit_hits", []).append(rec)
         elif any(k in msg for k in OBLIGATION_MSGS):
             out["failures"].append(rec)
